@@ -170,8 +170,12 @@ def run(ctx):
     check_shapes(ctx, a, "C03.R2", ("s",))
     for kind in sorted(R.keys() & S.keys()):
         rf, sf = R.funcs(kind)[0], S.funcs(kind)[0]
-        rc = consumption(a.shape(rf, "r", R_NAMES), keep_src=True).replace("}else{}", "}")
-        sc = consumption(a.shape(sf, "r", K_NAMES), keep_src=True).replace("}else{}", "}")
+        rt, st = a.shape(rf, "r", R_NAMES), a.shape(sf, "r", K_NAMES)
+        if has_unknown(rt) or has_unknown(st):
+            ctx.unrecognised("C03.R2", f"READERS[{kind}] ~ SKIPS[{kind}]", sf.where(), f"constructs not modelled by the shape extractor: {has_unknown(rt) + has_unknown(st)}")
+            continue
+        rc = consumption(rt, keep_src=True).replace("}else{}", "}")
+        sc = consumption(st, keep_src=True).replace("}else{}", "}")
         ctx.check("C03.R2", f"READERS[{kind}] ~ SKIPS[{kind}]", rc == sc, sf.where(), f"{sf.qualname}: {sc}", f"skipper consumes `{sc}` but reader consumes `{rc}`")
 
     # ---- R3 wire index bounds -------------------------------------------------
